@@ -1,7 +1,7 @@
 // C04 - established channels deliver every envelope exactly once, intact, in
 // order. Real client and server channels over the in-process transport and
 // over the real TCP transport on virtual pipes (tiny and large buffers);
-// concurrent senders in both directions, one draining consumer per side; all
+// concurrent senders in both directions, one draining consumer per side (in the slow-consumer scenarios the server's starts 7 s late, longer than any transport I/O timeout); all
 // workloads (kinds, sizes) as data choices x all schedules within the
 // deviation bound; oracle = per-(sender,kind) FIFO multiset model.
 package main
@@ -121,7 +121,7 @@ func consume(ctx context.Context, x *harness.X, sd *side, ch chanAPI) {
 	}
 }
 
-func body(kind string, pipeCap int, twoClientSenders bool) func(x *harness.X) {
+func body(kind string, pipeCap int, twoClientSenders, slowConsumer bool) func(x *harness.X) {
 	return func(x *harness.X) {
 		lib.Reset()
 		s := &st{cli: side{name: "client"}, srv: side{name: "server"}}
@@ -142,7 +142,15 @@ func body(kind string, pipeCap int, twoClientSenders bool) func(x *harness.X) {
 		defer cancel()
 		rt.BeginExplore()
 		go consume(ctx, x, &s.cli, cc)
-		go consume(ctx, x, &s.srv, sc)
+		go func() {
+			if slowConsumer {
+				// "any handler speed": the server application is busy for a while (longer than
+				// any I/O timeout of the transports) before it looks at its inbound streams
+				time.Sleep(7 * time.Second)
+				x.Obs("server consumer starts late")
+			}
+			consume(ctx, x, &s.srv, sc)
+		}()
 		go func() {
 			send(ctx, x, s, cc, "c1", 0, k1)
 			send(ctx, x, s, cc, "c1", 1, k2)
@@ -157,8 +165,11 @@ func body(kind string, pipeCap int, twoClientSenders bool) func(x *harness.X) {
 			send(ctx, x, s, sc, "s1", 0, k3)
 			send(ctx, x, s, sc, "s1", 1, 0)
 		}()
-		if kind == "tcp" {
+		if kind == "tcp" || slowConsumer {
 			// receivers poll every 5s: give a stalled write the time to resume
+			time.Sleep(12 * time.Second)
+		}
+		if slowConsumer {
 			time.Sleep(12 * time.Second)
 		}
 		rt.Quiesce()
@@ -238,6 +249,13 @@ func final(x *harness.X, res *rt.Result) {
 	}
 	check(&s.srv, "c")
 	check(&s.cli, "s")
+	// the session is still established on both sides, nobody cancelled anything and both
+	// applications keep consuming: a send has no reason to fail ("any handler speed")
+	for _, r := range s.sent {
+		if r.err != nil {
+			x.Failf("send-failed-on-healthy-session", "%s's send of %s failed with %q although the session stayed established and its context never ended [%s]", r.sender, r.id, r.err, hist)
+		}
+	}
 	// nobody may be left blocked in a send while both consumers are willing
 	for _, g := range res.Alive {
 		if strings.Contains(g.Name, "body.func") && (g.PendTag() == "send" || g.PendTag() == "Write" || g.PendTag() == "Lock") {
@@ -251,7 +269,7 @@ func main() {
 	stall := base
 	stall.NoTimerDeviation = false
 	mk := func(name, kind string, cap int, two bool, opt rt.Options, q, t int) harness.Scenario {
-		return harness.Scenario{Name: name, Opt: opt, Quick: q, Thorough: t, Prune: true, Body: body(kind, cap, two), Final: final}
+		return harness.Scenario{Name: name, Opt: opt, Quick: q, Thorough: t, Prune: true, Body: body(kind, cap, two, strings.Contains(name, "slow-consumer")), Final: final}
 	}
 	harness.Main(harness.Check{
 		Property: "C04",
@@ -265,6 +283,9 @@ func main() {
 			mk("tcp/cap64B/stalls", "tcp", 64, false, stall, 1, 1),
 			mk("ws/cap64KiB", "ws", 64<<10, false, base, 1, 1),
 			mk("ws/cap64B", "ws", 64, false, base, 1, 1),
+			mk("ws/cap64B/slow-consumer", "ws", 64, false, base, 0, 1),
+			mk("tcp/cap64B/slow-consumer", "tcp", 64, false, base, 0, 1),
+			mk("inproc/slow-consumer", "inproc", 0, false, base, 0, 1),
 			mk("inproc/2senders", "inproc", 0, true, base, -1, 1),
 			mk("tcp/cap64B/2senders", "tcp", 64, true, base, -1, 1),
 		},
